@@ -265,14 +265,30 @@ Definition fr_key_eqb (x y : flushrec) : bool :=
 Definition fr_full_eqb (x y : flushrec) : bool :=
   fr_key_eqb x y && list_eqb N.eqb (fr_touched x) (fr_touched y).
 
+(** what the state hash actually sees of a change set: per account the concatenation
+    k1 v1 k2 v2 ... (no length prefixes) *)
+Definition st_concat (l : list ((N * bytes) * bytes)) : list (N * bytes) :=
+  isort (fun x y : N * bytes => fst x <=? fst y)
+        (fold_left (fun acc (kv : (N * bytes) * bytes) =>
+                      let a := fst (fst kv) in
+                      aput a ((match aget a acc with Some b => b | None => [] end) ++ snd (fst kv) ++ snd kv) acc)
+                   l []).
+Definition fr_concat_eqb (x y : flushrec) : bool :=
+  bytes_eqb (fr_prev x) (fr_prev y) &&
+  list_eqb (fun p q : N * sacct => (fst p =? fst q) && sacct_eqb (snd p) (snd q)) (cs_acct (fr_chg x)) (cs_acct (fr_chg y)) &&
+  list_eqb (fun p q : N * bytes => (fst p =? fst q) && bytes_eqb (snd p) (snd q))
+           (st_concat (cs_st (fr_chg x))) (st_concat (cs_st (fr_chg y))) &&
+  list_eqb N.eqb (fr_touched x) (fr_touched y).
+
 (** 0 = fine; 1 = same (prev, changes, written accounts) but different roots;
     2 = different (prev, changes) but equal roots;
-    3 = same (prev, changes), different sets of written account records, different roots *)
+    3 = same (prev, changes), different sets of written account records, different roots;
+    4 = different change sets with the same key/value concatenation per account, equal roots *)
 Definition fr_pair_check (x y : flushrec) : N :=
   let same_root := bytes_eqb (fr_root x) (fr_root y) in
   if fr_full_eqb x y then (if same_root then 0 else 1)
   else if fr_key_eqb x y then (if same_root then 0 else 3)
-  else if same_root then 2 else 0.
+  else if same_root then (if fr_concat_eqb x y then 4 else 2) else 0.
 
 Fixpoint fr_check_one (x : flushrec) (l : list flushrec) : N :=
   match l with
